@@ -1,4 +1,4 @@
-\* replayed exhaustively: the space of P2Bin_MC_mixedpost.cfg (mixed granularity x two files with (offset) x -S x -s x -e; -l 90 only)
+\* replayed exhaustively: the space of P2Bin_MC_mixedpost.cfg (mixed granularity x two files with (offset) x -S none / B3 x -s x -e; -l 90)
 CONSTANTS
   Dev = {}
   MaxRecs = 2
@@ -15,6 +15,6 @@ CONSTANTS
   LaneSet <- L_Two
   FiltSet <- F_None
   ESet <- E_Mixed
-  HdrSet <- H_MixedPost
+  HdrSet <- H_MixedPost2
 SPECIFICATION CoverSpec
 CHECK_DEADLOCK FALSE
